@@ -931,6 +931,23 @@ func (pw *pathWalker) run(s *pwState) []*pwState {
 							hit = true
 						}
 					}
+					// a package variable that only its initialiser writes: the value the initialiser stores
+					if g, isG := x.X.(*ssa.Global); isG && !hit && !pw.noTables && g.Pkg != nil {
+						if w := worldOfProg(g.Pkg.Prog); w != nil {
+							if st := w.globalInitStore(g); st != nil {
+								// (only values that cannot be modified through the variable: numbers, strings, types, functions)
+								immutable := namedIs(st.Val.Type(), "reflect", "Type")
+								switch st.Val.Type().Underlying().(type) {
+								case *types.Basic, *types.Signature:
+									immutable = true
+								}
+								if immutable {
+									s.p.alias[x] = st.Val
+									hit = true
+								}
+							}
+						}
+					}
 					if !hit && s.p.loadHook != nil {
 						if c, ok := s.p.loadHook(s.p, x); ok {
 							s.p.consts[x] = c
